@@ -132,8 +132,16 @@ def run(ctx):
         raise AnalysisError('anchor-lost role=call site of the sampling decision in %s' % roles.start.qualname)
     force_param = rec_param = None
     bound = list(zip(smp.params[1:], site[0].args)) + [(k.arg, k.value) for k in site[0].keywords if k.arg]
-    for prm, a in bound:
-        a = _xl0(roles.start.node, a, depth=2)
+    def origins(a):
+        """what the argument may be: itself expanded, or - for a local bound at several places - each of its bindings"""
+        e = _xl0(roles.start.node, a, depth=2)
+        out = [e]
+        if isinstance(e, ast.Name):
+            out += [n.value for n in walk_own(roles.start.node) if isinstance(n, ast.Assign) and len(n.targets) == 1 and
+                    isinstance(n.targets[0], ast.Name) and n.targets[0].id == e.id]
+        return out
+    for prm, a0 in [(p_, x) for p_, a_ in bound for x in origins(a_)]:
+        a = a0
         f = _self_attr(a)
         if f is None:
             continue
